@@ -5,8 +5,10 @@ CONSTANTS
   KMax = 3
   TES = {0,1,2,3,4,5,6,7}
   TShift = 1
-  TESp = {0,1,3,6}
-  FModes = {"gen1","gen2"}
+  TESp = {0,2,5}
+  FModes = {"gen2"}
+  EvalRoutes = {"out_tau"}
+  AllOrders = FALSE
   Slip = "fluxfortau"
   SlipOn = {"out_tau"}
   Export = FALSE
